@@ -98,6 +98,12 @@ func sliceFields(v ssa.Value, srcT string, out map[string]bool) {
 			if f := x.Call.StaticCallee(); f != nil && len(x.Call.Args) > 0 && strings.HasPrefix(f.Name(), "Get") && namedOf(x.Call.Args[0].Type()) == srcT {
 				out[strings.TrimPrefix(f.Name(), "Get")] = true
 			}
+			// small accessor callees in the module: the fields of srcT they read flow into their result
+			if f := x.Call.StaticCallee(); f != nil && f.Pkg != nil && strings.HasPrefix(f.Pkg.Pkg.Path(), modPath) && len(f.Blocks) > 0 && len(f.Blocks) <= 6 {
+				for _, r := range directFieldReads(f, srcT) {
+					out[r] = true
+				}
+			}
 		}
 		if in, ok := v.(ssa.Instruction); ok {
 			var ops []*ssa.Value
@@ -299,4 +305,49 @@ func (c *Ctx) codecPair(s codecSpec) {
 		}
 		c.Check("S", s.Name+"/decoder "+s.Dec+" ends in validation", ok, dec.Pos(), n, "the success return of the decoder must return the verdict of "+s.Validates)
 	}
+}
+
+var dfrCache = map[*ssa.Function]map[string][]string{}
+
+// directFieldReads: fields of named type t read in the body of f (and of the module callees it calls directly).
+func directFieldReads(f *ssa.Function, t string) []string {
+	if m, ok := dfrCache[f]; ok {
+		if r, ok := m[t]; ok {
+			return r
+		}
+	} else {
+		dfrCache[f] = map[string][]string{}
+	}
+	set := map[string]bool{}
+	var visit func(g *ssa.Function, d int)
+	visit = func(g *ssa.Function, d int) {
+		for _, b := range g.Blocks {
+			for _, in := range b.Instrs {
+				switch x := in.(type) {
+				case *ssa.FieldAddr:
+					if namedOf(x.X.Type()) == t {
+						set[fieldName(x.X.Type(), x.Field)] = true
+					}
+				case *ssa.Field:
+					if namedOf(x.X.Type()) == t {
+						set[fieldName(x.X.Type(), x.Field)] = true
+					}
+				case *ssa.Call:
+					if d > 0 {
+						if cal := x.Call.StaticCallee(); cal != nil && cal.Pkg != nil && strings.HasPrefix(cal.Pkg.Pkg.Path(), modPath) && len(cal.Blocks) > 0 && len(cal.Blocks) <= 6 {
+							visit(cal, d-1)
+						}
+					}
+				}
+			}
+		}
+	}
+	visit(f, 1)
+	var out []string
+	for k := range set {
+		out = append(out, k)
+	}
+	sort.Strings(out)
+	dfrCache[f][t] = out
+	return out
 }
